@@ -572,26 +572,44 @@ def _strand_window(sem: Sem, e: ast.AST, at: ast.AST) -> Optional[Any]:
     return atom_of(v) if isinstance(v, Aff) else v
 
 
-def check(chk, fi) -> Optional[str]:
-    """Runs the fact-level rules; returns None when all of them could read the code, else the reason."""
+def check(chk, fi) -> Dict[str, str]:
+    """Runs the fact-level rules one by one; returns {aspect: reason} for those that could not read the code (the caller falls back to
+    the pinned form of exactly these aspects)."""
+    failed: Dict[str, str] = {}
     try:
-        _check(chk, fi)
-        return None
+        sem = Sem(fi.node)
+        roles = _role_lists(sem)
+        if roles is None:
+            raise NotRecognised("result is not a 4-tuple of local lists")
     except NotRecognised as e:
-        return str(e)
+        return {k: str(e) for k in ("stops", "windows", "tails", "links", "closure", "walk")}
+    cands: Optional[str] = None
 
+    def attempt(aspect: str, fn) -> None:
+        n0 = len(chk.obligations)
+        try:
+            fn()
+        except NotRecognised as e:
+            del chk.obligations[n0:]
+            failed[aspect] = str(e)
 
-def _check(chk, fi) -> None:
-    sem = Sem(fi.node)
-    roles = _role_lists(sem)
-    if roles is None:
-        raise NotRecognised("result is not a 4-tuple of local lists")
-    prelude_fact(chk, fi, sem)
-    stops_fact(chk, fi, sem, roles)
-    cands = windows_fact(chk, fi, sem, roles)
-    tails_fact(chk, fi, sem, roles, cands)
-    links_fact(chk, fi, sem, cands)
-    closure_fact(chk, fi, sem, roles, cands)
+    def windows():
+        nonlocal cands
+        cands = windows_fact(chk, fi, sem, roles)
+
+    attempt("prelude", lambda: prelude_fact(chk, fi, sem))
+    attempt("stops", lambda: stops_fact(chk, fi, sem, roles))
+    attempt("windows", windows)
+    if "windows" in failed:
+        # the candidate list is found by the window rule; without it the later rules cannot bind their roles
+        for k in ("tails", "links", "closure", "walk"):
+            failed[k] = "window loop not read: " + failed["windows"]
+        return failed
+    attempt("tails", lambda: tails_fact(chk, fi, sem, roles, cands))
+    attempt("links", lambda: links_fact(chk, fi, sem, cands))
+    attempt("closure", lambda: closure_fact(chk, fi, sem, roles, cands))
+    attempt("walk", lambda: walk_fact(chk, fi, sem, roles, cands))
+    return failed
 
 
 def prelude_fact(chk, fi, sem: Sem) -> None:
@@ -1042,58 +1060,120 @@ def _receives_loops(sem: Sem, name: str) -> bool:
 # -- links -------------------------------------------------------------------------------------------------------------
 
 
+def _index_maps(sem: Sem, Ca) -> Dict[str, Tuple[ast.For, ast.AST, ast.AST]]:
+    """defaultdicts filled by exactly one unguarded `M[key(x)].append(i)` in a loop over all candidates: name -> (loop, key expr, index expr).
+    Iterating `M[K]` / `M.get(K, ())` then yields exactly the indices j with key(cand[j]) == K."""
+    out: Dict[str, Tuple[ast.For, ast.AST, ast.AST]] = {}
+    sites: Dict[str, List[ast.Call]] = {}
+    for n in astq.walk_no_nested(sem.fn):
+        if isinstance(n, ast.Call) and isinstance(n.func, ast.Attribute) and isinstance(n.func.value, ast.Subscript) and isinstance(n.func.value.value, ast.Name):
+            sites.setdefault(n.func.value.value.id, []).append(n)
+    for name, calls in sites.items():
+        d = astq.single_def(sem.fn, name)
+        if not (d is not None and isinstance(d, ast.Call) and astq.callee_name(d) == "defaultdict" and len(calls) == 1):
+            continue
+        c = calls[0]
+        if c.func.attr not in ("append", "add") or len(c.args) != 1:
+            continue
+        loops = [l for l in sem.loops_of(c) if isinstance(l, ast.For)]
+        if len(loops) != 1 or sem.guards(c):
+            continue
+        idx = sem.ev(c.args[0], c)
+        key = sem.ev(c.func.value.slice, c)
+        if not isinstance(idx, Aff) or not isinstance(key, Aff):
+            continue
+        # the stored value is the index of the loop's candidate, the key is computed from that candidate and is not itself the index
+        dom = _single_domain(sem, loops[0], idx, Ca)
+        if dom and key != idx:
+            out[name] = (loops[0], c.func.value.slice, c.args[0])
+    return out
+
+
+def _single_domain(sem: Sem, loop: ast.For, idx: Aff, Ca) -> bool:
+    """The loop runs idx over every index of the candidate list."""
+    it = loop.iter
+    env = sem.env_at(loop.body[0])
+    if isinstance(it, ast.Call) and isinstance(it.func, ast.Name) and it.func.id == "enumerate" and len(it.args) == 1 and isinstance(loop.target, (ast.Tuple, ast.List)) and len(loop.target.elts) == 2:
+        base = canon_atom(atom_of(sem.env_at(loop).ev(it.args[0])))
+        iv = canon(env.ev(loop.target.elts[0]))
+        return base == Ca and iv == idx
+    r = _range_of(sem, loop)
+    if r is not None:
+        v, start, stop = r
+        return v == idx and start == Aff.c(0) and stop == Aff.of(("len", Ca))
+    return False
+
+
 def links_fact(chk, fi, sem: Sem, cands: Optional[str]) -> None:
     rule = "elements-links-fact"
     if cands is None:
         return
     Ca = canon_atom(atom_of(sem.base.ev(ast.Name(id=cands, ctx=ast.Load()))))
-    adds = []
+    imaps = _index_maps(sem, Ca)
+    # edge insertions: (call node, a expr, b expr, scope node for b, implicit facts [(x, y)], inner domain is full)
+    adds: List[Tuple[ast.Call, ast.AST, ast.AST, ast.AST, List[Tuple[Aff, Aff]], bool]] = []
     for n in astq.walk_no_nested(sem.fn):
-        if isinstance(n, ast.Call) and isinstance(n.func, ast.Attribute) and n.func.attr in ("add", "append") and isinstance(n.func.value, ast.Subscript) and isinstance(n.func.value.value, ast.Name) and len(n.args) == 1:
-            g = n.func.value.value.id
-            d = astq.single_def(sem.fn, g)
-            if d is not None and isinstance(d, ast.Call) and astq.callee_name(d) == "defaultdict":
-                adds.append(n)
+        if not (isinstance(n, ast.Call) and isinstance(n.func, ast.Attribute) and isinstance(n.func.value, ast.Subscript) and isinstance(n.func.value.value, ast.Name)):
+            continue
+        g = n.func.value.value.id
+        if g in imaps:
+            continue
+        d = astq.single_def(sem.fn, g)
+        if not (d is not None and isinstance(d, ast.Call) and astq.callee_name(d) == "defaultdict"):
+            continue
+        if n.func.attr in ("add", "append") and len(n.args) == 1:
+            implicit, full = _implicit_from_loops(sem, n, imaps, Ca)
+            adds.append((n, n.func.value.slice, n.args[0], n, implicit, full))
+        elif n.func.attr in ("update", "extend") and len(n.args) == 1 and isinstance(n.args[0], (ast.GeneratorExp, ast.ListComp, ast.SetComp)):
+            comp = n.args[0]
+            implicit, full = _implicit_from_comp(sem, comp, imaps, Ca)
+            adds.append((n, n.func.value.slice, comp.elt, comp.elt, implicit, full))
+        elif n.func.attr in ("update", "extend", "add", "append"):
+            raise NotRecognised(f"edge insertion `{norm(n)[:70]}` not enumerable")
     if not adds:
         raise NotRecognised("no edge insertion `graph[a].add(b)` into a defaultdict found")
     dirs = set()
     domain = None
     bad = []
-    for n in adds:
-        a = sem.ev(n.func.value.slice, n)
-        b = sem.ev(n.args[0], n)
-        guards = sem.guards(n)
-        hit = False
-        for t, p in guards:
-            r = eq_pair(sem, t, p, n)
+    for n, a_expr, b_expr, b_at, implicit, inner_full in adds:
+        a = sem.ev(a_expr, n)
+        b = sem.ev(b_expr, b_at)
+        if not isinstance(a, Aff) or not isinstance(b, Aff):
+            raise NotRecognised(f"edge endpoints of `{norm(n)[:60]}` are not index forms")
+        facts: List[Tuple[bool, Aff, Aff, str]] = [(True, x, y, "index look-up") for x, y in implicit]
+        for t, p in sem.guards(b_at):
+            r = eq_pair(sem, t, p, b_at)
             if r is None:
-                bad.append((n, f"edge `{norm(n)}` under a condition `{norm(t)[:60]}` that is not the pairing test"))
+                bad.append((n, f"edge `{norm(n)[:60]}` under a condition `{norm(t)[:60]}` that is not the pairing test"))
                 continue
-            is_eq, x, y = r
+            facts.append((r[0], r[1], r[2], norm(t)[:80]))
+        hit = False
+        want_l = Aff.of(("item", Aff.c(2), ("item", Aff.of(("attr", "last", ("item", a, Ca))) - Aff.c(1), ENTRIES)))
+        want_r = Aff.of(("attr", "first", ("item", b, Ca)))
+        # the mirrored statement: entries[first(b) - 1].pair == last(a)
+        want_l2 = Aff.of(("item", Aff.c(2), ("item", Aff.of(("attr", "first", ("item", b, Ca))) - Aff.c(1), ENTRIES)))
+        want_r2 = Aff.of(("attr", "last", ("item", a, Ca)))
+        for is_eq, x, y, txt in facts:
             if not is_eq:
                 if {x, y} == {a, b}:
                     continue  # `a != b`: a strand is not linked to itself
-                bad.append((n, f"edge `{norm(n)}` added when `{norm(t)[:60]}` is false"))
+                bad.append((n, f"edge `{norm(n)[:60]}` added when `{txt}` is false"))
                 continue
-            want_l = Aff.of(("item", Aff.c(2), ("item", Aff.of(("attr", "last", ("item", a, Ca))) - Aff.c(1), ENTRIES)))
-            want_r = Aff.of(("attr", "first", ("item", b, Ca)))
-            if (x == want_l and y == want_r) or (y == want_l and x == want_r):
+            if {x, y} == {want_l, want_r} or {x, y} == {want_l2, want_r2}:
                 hit = True
             else:
-                # the mirrored statement: entries[first(b) - 1].pair == last(a)
-                want_l2 = Aff.of(("item", Aff.c(2), ("item", Aff.of(("attr", "first", ("item", b, Ca))) - Aff.c(1), ENTRIES)))
-                want_r2 = Aff.of(("attr", "last", ("item", a, Ca)))
-                if (x == want_l2 and y == want_r2) or (y == want_l2 and x == want_r2):
-                    hit = True
-                else:
-                    bad.append((n, f"edge {show(a)} -> {show(b)} is added when `{norm(t)[:80]}` i.e. {show(x)} == {show(y)}: not `entries[cand[{show(a)}].last - 1].pair == cand[{show(b)}].first`"))
-        if not guards:
-            bad.append((n, f"edge `{norm(n)}` is added unconditionally"))
+                bad.append((n, f"edge {show(a)} -> {show(b)} is added when `{txt}` i.e. {show(x)} == {show(y)}: not `entries[cand[{show(a)}].last - 1].pair == cand[{show(b)}].first`"))
+        if not facts:
+            bad.append((n, f"edge `{norm(n)[:60]}` is added unconditionally"))
         if hit:
             loops = [l for l in sem.loops_of(n) if isinstance(l, ast.For)]
-            dom = _pair_domain(sem, loops, a, b, Ca)
+            if inner_full:
+                # b ranges over every index whose key matches (index map); a must range over every candidate
+                dom = ("full", "fwd") if loops and _single_domain(sem, loops[-1], a, Ca) else None
+            else:
+                dom = _pair_domain(sem, loops, a, b, Ca)
             if dom is None:
-                raise NotRecognised(f"iteration domain of edge `{norm(n)}` not recognised")
+                raise NotRecognised(f"iteration domain of edge `{norm(n)[:60]}` not recognised")
             kind, direction = dom
             domain = kind if domain in (None, kind) else "mixed"
             dirs.add(direction)
@@ -1102,9 +1182,86 @@ def links_fact(chk, fi, sem: Sem, cands: Optional[str]) -> None:
     if bad:
         return
     if domain == "full" or (domain == "triangle" and dirs == {"fwd", "bwd"}):
-        chk.ok(rule, fi.site(adds[0]), f"edge a -> b iff entries[cand[a].last - 1].pair == cand[b].first; every ordered pair of candidates examined ({domain} domain, {len(adds)} insertion sites)")
+        chk.ok(rule, fi.site(adds[0][0]), f"edge a -> b iff entries[cand[a].last - 1].pair == cand[b].first; every ordered pair of candidates examined ({domain} domain, {len(adds)} insertion sites{', through an index of the candidates by .first' if imaps else ''})")
     else:
-        chk.violation(rule, fi.site(adds[0]), f"linking graph: only one direction of each unordered pair of candidates is examined ({domain} domain, directions {sorted(dirs)}): links from a later to an earlier strand are lost", K(fi, "links"))
+        chk.violation(rule, fi.site(adds[0][0]), f"linking graph: only one direction of each unordered pair of candidates is examined ({domain} domain, directions {sorted(dirs)}): links from a later to an earlier strand are lost", K(fi, "links"))
+
+
+def _lookup_of(sem: Sem, it: ast.AST, imaps) -> Optional[Tuple[str, ast.AST]]:
+    """`M[K]` / `M.get(K, <empty>)` on an index map: (M, K expr)."""
+    if isinstance(it, ast.Subscript) and isinstance(it.value, ast.Name) and it.value.id in imaps and not isinstance(it.slice, ast.Slice):
+        return it.value.id, it.slice
+    if isinstance(it, ast.Call) and isinstance(it.func, ast.Attribute) and it.func.attr == "get" and isinstance(it.func.value, ast.Name) and it.func.value.id in imaps and 1 <= len(it.args) <= 2:
+        if len(it.args) == 2:
+            dflt = it.args[1]
+            empty = (isinstance(dflt, (ast.Tuple, ast.List, ast.Set)) and not dflt.elts) or (isinstance(dflt, ast.Call) and not dflt.args and astq.callee_name(dflt) in ("list", "tuple", "set", "frozenset"))
+            if not empty:
+                return None
+        else:
+            return None  # .get(K) may be None: not iterable
+        return it.func.value.id, it.args[0]
+    return None
+
+
+def _instantiate_key(sem: Sem, imap: Tuple[ast.For, ast.AST, ast.AST], j: Aff, Ca) -> Optional[Aff]:
+    """key(cand[j]) for the index map's key expression."""
+    loop, key_expr, idx_expr = imap
+    over = {}
+    it = loop.iter
+    if isinstance(it, ast.Call) and isinstance(it.func, ast.Name) and it.func.id == "enumerate" and isinstance(loop.target, (ast.Tuple, ast.List)) and len(loop.target.elts) == 2:
+        i_t, e_t = loop.target.elts
+        if isinstance(i_t, ast.Name):
+            over[i_t.id] = j
+        if isinstance(e_t, ast.Name):
+            over[e_t.id] = Aff.of(("item", atom_of(j), atom_of(sem.env_at(loop).ev(it.args[0]))))
+    elif isinstance(loop.target, ast.Name):
+        over[loop.target.id] = j
+    else:
+        return None
+    v = sem.base.with_(**over).ev(key_expr)
+    return canon(v) if isinstance(v, Aff) else None
+
+
+def _implicit_from_comp(sem: Sem, comp: ast.AST, imaps, Ca) -> Tuple[List[Tuple[Aff, Aff]], bool]:
+    out: List[Tuple[Aff, Aff]] = []
+    full = False
+    for g in comp.generators:
+        lk = _lookup_of(sem, g.iter, imaps)
+        if lk is None:
+            continue
+        m, kexpr = lk
+        if not isinstance(g.target, ast.Name):
+            raise NotRecognised("index look-up with a structured target")
+        j = canon(sem.env_at(comp.elt).ev(ast.Name(id=g.target.id, ctx=ast.Load())))
+        K_ = sem.ev(kexpr, comp)
+        kj = _instantiate_key(sem, imaps[m], j, Ca)
+        if kj is None or not isinstance(K_, Aff):
+            raise NotRecognised("index look-up key not an integer form")
+        out.append((kj, K_))
+        full = True
+    return out, full
+
+
+def _implicit_from_loops(sem: Sem, n: ast.AST, imaps, Ca) -> Tuple[List[Tuple[Aff, Aff]], bool]:
+    out: List[Tuple[Aff, Aff]] = []
+    full = False
+    for l in sem.loops_of(n):
+        if not isinstance(l, ast.For):
+            continue
+        lk = _lookup_of(sem, l.iter, imaps)
+        if lk is None:
+            continue
+        m, kexpr = lk
+        if not isinstance(l.target, ast.Name):
+            raise NotRecognised("index look-up with a structured target")
+        j = canon(sem.env_at(l.body[0]).ev(ast.Name(id=l.target.id, ctx=ast.Load())))
+        K_ = sem.ev(kexpr, l)
+        kj = _instantiate_key(sem, imaps[m], j, Ca)
+        if kj is None or not isinstance(K_, Aff):
+            raise NotRecognised("index look-up key not an integer form")
+        out.append((kj, K_))
+        full = True
+    return out, full
 
 
 def _pair_domain(sem: Sem, loops: List[ast.For], a: Aff, b: Aff, Ca) -> Optional[Tuple[str, str]]:
@@ -1247,6 +1404,146 @@ def closure_fact(chk, fi, sem: Sem, roles, cands: Optional[str]) -> None:
         chk.violation(rule, fi.site(c), "the strands of a recorded loop are not marked as used: they are reported again as single strands", K(fi, "closure-used"))
         return
     chk.ok(rule, fi.site(c), "Loop(walk) in walk order iff entries[walk[0].first - 1].pair == walk[-1].last and some strand has last - first > 1; its strands are marked used")
+
+
+# -- walk --------------------------------------------------------------------------------------------------------------
+
+
+def _selection(sem: Sem, w: ast.While) -> Tuple[str, ast.AST, List[ast.expr], List[ast.stmt], Optional[ast.AST]]:
+    """The three idioms of `take the first j of ITER that satisfies F, stop when there is none`:
+    (j name, ITER, [conditions], body statements with j bound, substitution for j or None)."""
+    body = list(w.body)
+    # 1. for j in ITER: if F: BODY; break  else: break
+    if len(body) == 1 and isinstance(body[0], ast.For) and isinstance(body[0].target, ast.Name):
+        f = body[0]
+        if [type(x) for x in f.orelse] == [ast.Break] and len(f.body) == 1 and isinstance(f.body[0], ast.If) and not f.body[0].orelse and f.body[0].body and isinstance(f.body[0].body[-1], ast.Break):
+            return f.target.id, f.iter, [f.body[0].test], f.body[0].body[:-1], None
+    # 2. L = [j for j in ITER if F]; if not L: break; ... L[0] ...
+    if len(body) >= 2 and isinstance(body[0], ast.Assign) and len(body[0].targets) == 1 and isinstance(body[0].targets[0], ast.Name) and isinstance(body[0].value, (ast.ListComp,)) and len(body[0].value.generators) == 1:
+        L = body[0].targets[0].id
+        comp = body[0].value
+        g = comp.generators[0]
+        st = body[1]
+        if isinstance(g.target, ast.Name) and isinstance(comp.elt, ast.Name) and comp.elt.id == g.target.id and isinstance(st, ast.If) and not st.orelse and [type(x) for x in st.body] == [ast.Break]:
+            t = st.test
+            empty = (isinstance(t, ast.UnaryOp) and isinstance(t.op, ast.Not) and isinstance(t.operand, ast.Name) and t.operand.id == L) or (
+                isinstance(t, ast.Compare) and len(t.ops) == 1 and isinstance(t.ops[0], ast.Eq) and norm(t.left) == f"len({L})" and norm(t.comparators[0]) == "0"
+            )
+            if empty:
+                first = ast.Subscript(value=ast.Name(id=L, ctx=ast.Load()), slice=ast.Constant(value=0), ctx=ast.Load())
+                return g.target.id, g.iter, list(g.ifs), body[2:], first
+    # 3. j = next((j for j in ITER if F), None); if j is None: break; ...
+    if len(body) >= 2 and isinstance(body[0], ast.Assign) and len(body[0].targets) == 1 and isinstance(body[0].targets[0], ast.Name) and isinstance(body[0].value, ast.Call) and astq.callee_name(body[0].value) == "next" and len(body[0].value.args) == 2:
+        j = body[0].targets[0].id
+        gen, dflt = body[0].value.args
+        st = body[1]
+        if isinstance(gen, ast.GeneratorExp) and len(gen.generators) == 1 and isinstance(dflt, ast.Constant) and dflt.value is None and isinstance(gen.generators[0].target, ast.Name) and isinstance(gen.elt, ast.Name) and gen.elt.id == gen.generators[0].target.id:
+            if isinstance(st, ast.If) and not st.orelse and [type(x) for x in st.body] == [ast.Break] and norm(st.test) == f"{j} is None":
+                g = gen.generators[0]
+                if g.target.id != j:
+                    # rename the generator variable to the bound name
+                    ifs = [_subst(t, g.target.id, ast.Name(id=j, ctx=ast.Load())) for t in g.ifs]
+                else:
+                    ifs = list(g.ifs)
+                return j, g.iter, ifs, body[2:], None
+    raise NotRecognised("the loop walk is not one of the three `first eligible successor` idioms")
+
+
+def walk_fact(chk, fi, sem: Sem, roles, cands: Optional[str]) -> None:
+    rule = "elements-walk-fact"
+    if cands is None:
+        return
+    whiles = [w for w in astq.walk_no_nested(sem.fn) if isinstance(w, ast.While)]
+    if len(whiles) != 1:
+        raise NotRecognised(f"{len(whiles)} while loops")
+    w = whiles[0]
+    if not (isinstance(w.test, ast.Constant) and w.test.value is True) or w.orelse:
+        raise NotRecognised("walk loop is not `while True`")
+    jname, it, conds, body, jsub = _selection(sem, w)
+    # roles: walk list = argument of Loop(...), used set = receiver of .update(walk)
+    em = emissions(sem, roles["loops"])
+    lc = _ctor(em[0][0], "Loop") if em else None
+    walk = None
+    if lc is not None and lc.args:
+        a = lc.args[0]
+        while isinstance(a, ast.Call) and a.args:
+            a = a.args[0]
+        if isinstance(a, ast.Name):
+            walk = a.id
+    if walk is None:
+        raise NotRecognised("walk list not identified")
+    used = None
+    for n in astq.walk_no_nested(sem.fn):
+        if isinstance(n, ast.Call) and isinstance(n.func, ast.Attribute) and n.func.attr == "update" and isinstance(n.func.value, ast.Name) and n.args and isinstance(n.args[0], ast.Name) and n.args[0].id == walk:
+            used = n.func.value.id
+    if used is None:
+        raise NotRecognised("used set not identified")
+    # the graph and the current position
+    if not (isinstance(it, ast.Subscript) and isinstance(it.value, ast.Name) and isinstance(it.slice, ast.Name)):
+        raise NotRecognised(f"successors are read from `{norm(it)[:40]}`")
+    graph, cur = it.value.id, it.slice.id
+    gd = astq.single_def(sem.fn, graph)
+    if not (gd is not None and isinstance(gd, ast.Call) and astq.callee_name(gd) == "defaultdict"):
+        raise NotRecognised("successor container is not the linking graph")
+    bad: List[str] = []
+    # eligibility: cand[j] not in used and cand[j] not in walk
+    atoms: List[Tuple[ast.expr, bool]] = []
+    for c in conds:
+        atoms.extend(sem._split(c, True))
+    want = {f"{cands}[{jname}] not in {used}", f"{cands}[{jname}] not in {walk}"}
+    got = set()
+    for t, p in atoms:
+        txt = norm(t)
+        if isinstance(t, ast.Compare) and len(t.ops) == 1 and isinstance(t.ops[0], (ast.In, ast.NotIn)):
+            neg = isinstance(t.ops[0], ast.NotIn) == p
+            txt = f"{norm(t.left)} {'not in' if neg else 'in'} {norm(t.comparators[0])}"
+        got.add(txt)
+    if got != want:
+        missing = sorted(want - got)
+        extra = sorted(got - want)
+        bad.append("a successor is eligible under " + " and ".join(sorted(got)) + f" (expected exactly: not yet used and not yet in the walk{'; missing ' + str(missing) if missing else ''}{'; additional ' + str(extra) if extra else ''})")
+    # the step: walk.append(cand[j]); cur = j
+    jexpr = jsub if jsub is not None else ast.Name(id=jname, ctx=ast.Load())
+    jtxt = norm(jexpr)
+    alias = {jtxt}
+    appended = moved = False
+    other: List[str] = []
+    for st in body:
+        t = norm(st)
+        if isinstance(st, ast.Assign) and len(st.targets) == 1 and isinstance(st.targets[0], ast.Name) and norm(st.value) in alias:
+            if st.targets[0].id == cur:
+                moved = True
+            alias.add(st.targets[0].id)
+            continue
+        if isinstance(st, ast.Expr) and isinstance(st.value, ast.Call) and isinstance(st.value.func, ast.Attribute) and st.value.func.attr == "append" and norm(st.value.func.value) == walk and len(st.value.args) == 1:
+            a = st.value.args[0]
+            if isinstance(a, ast.Subscript) and norm(a.value) == cands and norm(a.slice) in alias:
+                appended = True
+                continue
+            bad.append(f"the walk appends `{norm(a)[:50]}`, not the chosen successor {cands}[{jtxt}]")
+            continue
+        other.append(t[:60])
+    if not appended and not any("appends" in b for b in bad):
+        bad.append("the chosen successor is not appended to the walk")
+    if not moved:
+        bad.append(f"the walk does not move on to the chosen successor (`{cur}` keeps its value): successors of the first strand only are followed")
+    if other:
+        bad.append(f"additional statements in the step: {other}")
+    # start: walk = [cand[start]], cur starts at the same index
+    wd = [v for stn, v in astq.assignments(sem.fn, walk) if v is not None]
+    start = None
+    if len(wd) == 1 and isinstance(wd[0], ast.List) and len(wd[0].elts) == 1 and isinstance(wd[0].elts[0], ast.Subscript) and norm(wd[0].elts[0].value) == cands:
+        start = norm(wd[0].elts[0].slice)
+    else:
+        bad.append(f"the walk does not start as [{cands}[<start>]]")
+    if start is not None and cur != start:
+        cd = [v for stn, v in astq.assignments(sem.fn, cur) if v is not None and norm(v) not in alias]
+        if not (len(cd) == 1 and norm(cd[0]) == start):
+            bad.append(f"the walk's position `{cur}` does not start at the start strand `{start}`")
+    if bad:
+        chk.violation(rule, fi.site(w), "loop walk: " + "; ".join(bad[:3]), K(fi, "walk"))
+    else:
+        chk.ok(rule, fi.site(w), f"from every start strand the walk repeatedly appends the first successor in {graph}[position] that is neither used nor already in the walk, moves there, and stops when there is none")
 
 
 def _block_of(sem: Sem, st: ast.stmt) -> List[ast.stmt]:
